@@ -158,7 +158,7 @@ def run_pool(jobs, nproc):
         todo.append((kind, key, modnames, tier, pid, {}))
     meta = {(k, key): (modnames, tier, pid) for k, key, modnames, tier, pid in jobs}
     t_pool = time.time()
-    FN_BUDGET_S = int(os.environ.get("PYVC_POOL_BUDGET_S", "1500"))
+    FN_BUDGET_S = int(os.environ.get("PYVC_POOL_BUDGET_S", "3600" if any(j[3] == "thorough" for j in jobs) else "1500"))
     os.environ["PYVC_POOL_DEADLINE"] = str(t_pool + FN_BUDGET_S)  # inherited by the forked workers
     if todo:
         with mp.get_context("fork").Pool(max(1, nproc)) as pool:
